@@ -100,6 +100,7 @@ func (c *FnCtx) exec(in ssa.Instruction) {
 	case *ssa.Store:
 		p := c.val(in.Addr)
 		v := c.val(in.Val)
+		c.refuseAbsPtr(p)
 		if len(v.Path) > 0 {
 			// a local variable assigned exactly once and only read afterwards (also by closures) may hold an
 			// interior pointer: its value is tracked outside the heap model
